@@ -399,6 +399,22 @@ pub fn translate(repo: &Path, out: &mut Out) {
         out.miss("layer_env.rs: read_from_layer_dir layer_path_specs");
     }
 
+    // ---- 5b. reader: directories inside env dirs / per-process sub-directories (finding F2)
+    {
+        let skips = find_impl_fn(&file, "LayerEnvDelta", None, "read_from_env_dir")
+            .map(|f| squash(&f.block).contains("ifpath.is_dir(){continue;}"))
+            .unwrap_or(false);
+        let procs = find_impl_fn(&file, "LayerEnv", None, "read_from_layer_dir")
+            .map(|f| {
+                let b = squash(&f.block);
+                b.contains("result_layer_env.process.insert(") && b.contains("fs::read_dir(&env_launch_path)?")
+            })
+            .unwrap_or(false);
+        let _ = writeln!(v, "Definition reader_skips_directories : bool := {skips}.");
+        let _ = writeln!(v, "Definition reader_reads_process_dirs : bool := {procs}.");
+        let _ = writeln!(v, "Definition reads_process : bool := {}.", skips && procs);
+    }
+
     // ---- 6. env directory names written
     if let Some(w) = find_impl_fn(&file, "LayerEnv", None, "write_to_layer_dir") {
         let mut mc = MethodCalls { found: vec![] };
